@@ -3,7 +3,8 @@ R1 pl() equals -Z + sum delta_t (S_{t+1}-S_t) - sum c |delta_{t+1}-delta_t| S_{t
 cases (column algebra, linear normal form); R2 axis bookkeeping of the cost vector and the reduction; R3 terminal_value is pl;
 R4 Hedger.compute_pl / compute_portfolio pass (spot, unit, cost, payoff) built from one and the same hedge list.
 Added after the seeded-defect rounds: R5 cost rates are not rounded to the default dtype; R6 pl() and the hedger's P&L methods leave no state behind; R4 is judged on every path.
-Third round: R8h call histories of list()/delist() on every derivative class (re-listing with cost 0.0, clauses survive delisting)."""
+Third round: R8h call histories of list()/delist() on every derivative class (re-listing with cost 0.0, clauses survive delisting).
+Round 7: R4 compares the payoff handed to pl() with what payoff() returns on the same derivative (two registered clauses), whatever way the fold over the clauses is written."""
 import itertools
 
 import sympy as sp
